@@ -13,7 +13,7 @@ claim("C01",
       "upstream send site, each refusing edge reaches no send and always answers with the documented status, the "
       "decision inputs come from the connection context, and only the two handler routes can reach an upstream write. "
       "Discharges the request/identity/policy quantifier by 'every CFG path'; right level because the property is a "
-      "shape-of-code property of one function plus a who-may-call inventory.",
+      "shape-of-code property of one function plus a who-may-call inventory. Helper contract: the traversal guard is path(url).contains(\"..\").",
       "Trusts rustc MIR + the fact extractor; hyper invoking the service fn per request; kernel attribution (C06) and "
       "authorize() semantics (C02/C03) are separate properties; TCP handshake at accept time is not 'payload'.",
       "DESIGN.md §5 C01")
@@ -24,7 +24,7 @@ claim("C03",
       "non-Forbidden result nor consult the rules without crossing the runAsElevated=true edge, that the self-destination "
       "authorizer is constant Forbidden, and that the (ip,port)->authorizer/rule-getter dispatch tables and the "
       "listener/redirector port constants agree. The rule-set quantifier is discharged because the rules are provably not "
-      "read before the elevation test.",
+      "read before the elevation test. Helper contract: runAsElevated = (kernel record's is_admin == 1), identity fields from the same record, every Ok result built from this call's record (no cache).",
       "Trusts rustc MIR + extractor; that runAsElevated reflects the caller is C06; Forbidden => 403/no relay is C01.",
       "DESIGN.md §5 C03")
 
@@ -33,7 +33,7 @@ claim("C05",
       "Decides for every multiset of client headers that the claims, date and authorization headers reaching the host are the "
       "proxy's: they are written with HeaderMap::insert (replace-all, case-insensitive) on the very request object that is "
       "forwarded, the inserts dominate every send, their values derive from the connection's attested claims / the proxy clock / "
-      "the computed signature, and no other mutator touches that header map.",
+      "the computed signature, and no other mutator touches that header map. Helper contract: the date helper renders OffsetDateTime::now_utc() in the RFC 1123 description. Helpers receiving &mut of the request are analysed in place (MIR inlining).",
       "Trusts http::HeaderMap::insert semantics (documented), rustc MIR + extractor.",
       "DESIGN.md §5 C05")
 
@@ -53,7 +53,7 @@ claim("C07",
       "Decides that the audit record is consumed on every path following a successful lookup (same port value, same map, same key "
       "constructor), that the identity fields of the per-connection context are written only by its single constructor site in the "
       "per-connection task, that each request receives a clone of that object, and that no static or long-lived type can hold a "
-      "caller identity. Schedule-independence follows from the absence of shared identity state, not from exploring interleavings.",
+      "caller identity. Schedule-independence follows from the absence of shared identity state, not from exploring interleavings. The consume step's failure sources are an inventory (eBPF object/map gone, kernel delete error) and its mutex is taken with a blocking lock().",
       "Trusts rustc MIR + extractor; behaviour when remove_audit itself fails, kernel-side reuse races and hyper's per-request "
       "service invocation are not decided.",
       "DESIGN.md §5 C07")
@@ -62,7 +62,7 @@ claim("C10",
       "single-snapshot provenance (def-use) at every signing site + actor state shape",
       "Decides for every interleaving that the key id and the MAC key of each authorization header come from one read of the "
       "shared key state: both operands at each signing site must derive from one actor round-trip (or one &Key parameter). This "
-      "removes the interleaving point instead of exploring schedules; with it the pairing is schedule-independent by construction.",
+      "removes the interleaving point instead of exploring schedules; with it the pairing is schedule-independent by construction. The hand-written Clone of Key is field-faithful.",
       "Trusts tokio mpsc/oneshot delivering the value sent, immutability of a read Key value, rustc MIR + extractor.",
       "DESIGN.md §5 C10")
 
@@ -72,7 +72,7 @@ claim("C14",
       "inserting the three proxy-owned headers and rebuilds it from the original head and collected body; the response is rebuilt from "
       "the upstream head with only the marker header inserted and no status mutation; the per-byte frame mapper is an identity; every "
       "upstream send happens under the per-connection mutex on the one upstream connection. Byte-for-byte transparency through hyper, "
-      "framing, chunking, sizes and pipelining are runtime properties and are NOT decided.",
+      "framing, chunking, sizes and pipelining are runtime properties and are NOT decided. The send chain below the handler hands the request on untouched; the connection's mutex guard is held until the awaited response arrived.",
       "Trusts hyper/http-body-util codec behaviour (not analysed), rustc MIR + extractor.",
       "DESIGN.md §5 C14")
 
@@ -81,7 +81,7 @@ claim("C15",
       "Decides that the 100 KiB / 100 MiB constants are what the layers are built from, that the per-request service picks LARGE exactly "
       "on the true edge of should_skip_sig and LOW otherwise and wraps the handler (whose body type is Limited<Incoming>), and that on "
       "both routes every upstream send is dominated by a successful collect() of the limited body while the failing outcome answers "
-      "400 and reaches no send: no part of an over-limit body can be relayed.",
+      "400 and reaches no send: no part of an over-limit body can be relayed. The limit is chosen per request by the exemption predicate, whose table (exactly the two documented uploads) is shared with C04.R5; a workspace body reader is accepted only if no Err outcome of frame()/collect() reaches its Ok result.",
       "Trusts tower_http::limit::RequestBodyLimitLayer / Limited semantics (413 on declared length, error after limit bytes read; "
       "exactly-the-limit passes) – boundary behaviour is the library's.",
       "DESIGN.md §5 C15")
@@ -114,8 +114,9 @@ claim("C13",
       "MIR bounds/division asserts, std APIs documented to panic, byte-offset string truncation without a char-boundary idiom, unsigned "
       "subtraction feeding a sleep) is reachable from the service entry with an operand derived from a client request, the caller's "
       "names/command line, a host reply, deserialised data or files read back - including data that travels through format!, error values, "
-      "awaits, closures and the actors' channels. Every armed site is in a reviewed SAFE table with its reason, accepted by a recognised "
-      "idiom, or reported.",
+      "awaits, closures and the actors' channels; text rendered from the clock arms byte-offset sinks as well (its length depends on the "
+      "value). Every armed site is in a reviewed SAFE table with its reason, accepted by a recognised idiom, or reported. For the liveness "
+      "clause it decides one structural condition: the start of the status tasks and the provisioning deadline are not behind the host poll.",
       "Trusts the declared taint propagation for external callees; panics inside dependencies, memory/stack exhaustion and debug-only "
       "overflow checks are not decided.",
       "DESIGN.md §5 C13")
@@ -136,7 +137,7 @@ claim("C09",
       "status poll reaches no state setter in its iteration and every post-poll setter is behind the Ok edge; get_status validates before "
       "Ok; each endpoint's rule id, rules, mode, actor variable, actor message and redirect constants are wired to the same endpoint "
       "(declared exception: HostGA mode = WireServer mode); redirect updates and clear_key hang on the state-changed edge and the "
-      "change detector reads every status field the redirect decisions read; the key block is entered iff the host names no key or a different one.",
+      "change detector reads every status field the redirect decisions read; the key block is entered iff the host names no key or a different one. Actor cells (key, channel state) are written only by their Set message, unconditionally, and read back by their Get message; update_current_secure_channel_state reports 'updated' exactly when the stored state differs and stores the new one.",
       "Trusts rustc MIR + extractor; convergence after arbitrary histories and faults is not decided.",
       "DESIGN.md §5 C09")
 
@@ -147,7 +148,7 @@ claim("C16",
       "the OR of the three single bits, the error text names a module exactly on its flag's missing edge; finished is set only behind "
       "contains(ALL_READY) of the value returned by the same round-trip, in the deadline handler, or from a reset's returned value; "
       "status.tag is only ever the target of a rename from the freshly written temp file. Tick comparisons under arbitrary tick "
-      "sequences are not decided.",
+      "sequences are not decided. The error text is get_provision_failed_state_message() on every path; latched = state not in {disabled, unknown}; the finished tick is 0 or the clock at SetProvisionFinished(true); deadline handling and status-task start are not behind the host poll.",
       "Trusts tokio channel semantics, fs::rename atomicity (OS), bitflags-generated operators, rustc MIR + extractor.",
       "DESIGN.md §5 C16")
 
@@ -157,7 +158,7 @@ claim("C02",
       "Privilege::is_match folds both operands; inside the iteration is_allowed can only return true and the matched flag is monotone, so "
       "the result is an existential over the iteration, independent of map order; host-supplied lists must not be flattened into "
       "name-keyed maps with silent last-wins; disabled mode short-circuits before any rule is consulted; every optional attribute of "
-      "Identity/Privilege is tested against its paired claim; dangling names never reach the flattened assignments.",
+      "Identity/Privilege is tested against its paired claim; dangling names never reach the flattened assignments. Hand-written Clone impls of the rule document types are content-blind and field-faithful (or derived).",
       "Trusts rustc MIR + extractor; prefix semantics, query parsing and everything outside these shapes are not decided.",
       "DESIGN.md §5 C02")
 
@@ -167,7 +168,7 @@ claim("C18",
       "& ' \" < > with & first (so no CDATA terminator or raw markup can come from event text); after each add_event the 64 KiB size test "
       "lies on every path to the upload, its overflow edge removes the last event, the put-back happens only for a non-empty batch and an "
       "event that alone overflows is dropped; every iteration over event files reaches clean_files on all paths; single uploader with a "
-      "constant retry bound. XML well-formedness for every text, termination and host-side duplicates are not decided.",
+      "constant retry bound. XML well-formedness for every text, termination and host-side duplicates are not decided. On the overflow edge the last event is removed before the emptiness test.",
       "Trusts str::replace / format! semantics, rustc MIR + extractor.",
       "DESIGN.md §5 C18")
 
@@ -177,7 +178,7 @@ claim("C19",
       "dominated by roll_if_needed, which archives exactly on len >= max size; deletions in archive_file and in the rule-dump writer take "
       "entries of the ascending-sorted listing and are guarded by count >= cap; the rule-dump deletion precedes the new write; on the "
       "event-file cap edge nothing is written in that iteration and the counted directory is the written one; loggers and the dump writer "
-      "are configured from MAX_LOG_FILE_SIZE / MAX_LOG_FILE_COUNT.",
+      "are configured from MAX_LOG_FILE_SIZE / MAX_LOG_FILE_COUNT. Listings (get_files / search_files) keep every (matching) regular file; the log file is opened after the roll.",
       "Trusts rustc MIR + extractor; off-by-one arithmetic of the deletion loops and restart behaviour are not decided.",
       "DESIGN.md §5 C19")
 
@@ -188,7 +189,7 @@ claim("C20",
       "checks it: counters saturate at 10000 and reset on the opposite observation; ERROR is entered only from TRANSITIONING on a failure "
       "with >= 20 consecutive failures and never on a success; one success leaves ERROR; a success from SUCCESS/TRANSITIONING yields SUCCESS; "
       "saturation does not wedge. Threshold/constants/field writers are fixed by who-may-write facts, so the relation is the whole "
-      "behaviour. The notifier's emit/suppress table is checked by path predicates; 'at most once per 120' is argued from that table.",
+      "behaviour. The notifier's emit/suppress table is checked by path predicates; 'at most once per 120' is argued from that table. Every observation reporter of the monitor loop performs exactly one update_state() on every path (helpers included).",
       "Trusts rustc MIR + extractor and the abstract transfer functions of lib/absint.py (String/str calls modelled: as_str, to_string, eq, clone).",
       "DESIGN.md §5 C20")
 
@@ -200,7 +201,7 @@ claim("C17",
       "precedes the copy and setup_service (unit -> enable -> start) follows, restore is behind the backup-exists test, purge removes only "
       "the backup folder, uninstall deletes files only in package mode; every fs effect and process spawn reachable from main targets the "
       "four system locations, the backup folder, the tool's log, systemctl or the packaged agent's --version; every copy/delete of the tables is attempted on "
-      "every path of the table functions and primitives (no skip on destination state); the extension runs backup before install, restore only on Error, purge only on Success.",
+      "every path of the table functions and primitives (no skip on destination state); the extension runs backup before install, restore only on Error, purge only on Success. Failure sources that abort uninstall before the files are deleted are an inventory (spawn failure only); each copy's destination folder exists when the copy runs; a backup 'exists' iff the backed-up executable exists.",
       "Trusts fs::copy fidelity, systemctl, rustc MIR + extractor; Windows code paths are not compiled here; arbitrary command sequences "
       "beyond the per-command tables are not decided.",
       "DESIGN.md §5 C17")
@@ -214,7 +215,7 @@ claim("C06",
       "port; every map's key/value size and word order equals the [u32; N] types and #[repr(C)] mirrors the agent opens that map with, "
       "to_array/from_array keep field i in word offset/4, map and program names agree, byte-order tags match, the skip map gets a tgid, the "
       "hand-over slot is keyed per thread, and every policy_map entry the agent writes has key = (endpoint ip, endpoint port) and value = "
-      "(proxy ip, listener port) at every call site (interprocedural role provenance).",
+      "(proxy ip, listener port) at every call site (interprocedural role provenance). Record stores use flags 0 (overwrite); a pointer into a map element is not used after the element's delete.",
       "Trusts clang 14 parsing/layout (x86-64 = BPF layout for __u32/__u64 fields), the stub libbpf headers in /verif/cstubs, the UAPI helper "
       "documentation; verifier acceptance, LRU capacity, cross-thread races and kernel struct offsets are not decided.",
       "DESIGN.md §5 C06")
